@@ -10,7 +10,7 @@ for t in translator/gen_*.py; do
 done
 # 2. full .vo build (no -vos), extraction included
 for d in build/x*; do :; done
-( cd coq && for x in Extract/X*.v; do n=$(basename "$x" .v | tr 'X' 'x'); mkdir -p "../build/$n"; done
+( cd coq && for x in Extract/X*.v; do n=$(basename "$x" .v | tr 'A-Z' 'a-z'); mkdir -p "../build/$n"; done
   timeout 3000 ./build.sh 2>&1 | grep -v "WARNING conda" | tail -5 )
 # 3. extracted drivers
 /venv/bin/python -W ignore - <<'PY'
